@@ -291,6 +291,8 @@ def front_doors(ctx, rep, tier):
             return
         for k in e:
             t = cls.spec.get(k.tag.lower())
+            if e.tag == "STATUS" and k.tag in ("CODE", "SEVERITY"):
+                continue        # ofxget's doors refuse a response whose status is not 0 for that reason: not a limit question
             if len(k) == 0 and k.text and t is not None and type(t) in (T.String, T.Integer, T.OneOf, T.Bool) and not (type(t) is T.String and t.length is None) \
                and not (type(t) is T.Integer and t.length is None):
                 out.append((k, t))
